@@ -153,6 +153,18 @@ def base : Handler
           | .error err => some (showErr err)
           | .ok y => some ("ok " ++ showMat y)
       | _ => none
+  | "c15.shared", [pat, n, m, rows, nz, v] => ans do
+      -- one CoNeighbor object used twice (finding F16i): the in-place semantics of the code
+      let p ← match pat with
+        | "sub" => some SharedPattern.sub | "add-neg" => some SharedPattern.addNeg
+        | "mul-add" => some SharedPattern.mulAdd | _ => none
+      let a ← mat? n m rows
+      let v ← ratList? v
+      match CoNeighbor.init a (← bool? nz) with
+      | .error err => some (showErr err)
+      | .ok c => match (Op.shared p c).dot v with
+        | .error err => some (showErr err)
+        | .ok y => some ("ok " ++ showRatList y)
   | "c15.sum", ts => ans do
       let (e, r) ← parseExpr ts
       match r with
